@@ -64,6 +64,11 @@ def skeletons():
     S_["rule-with-unloadable-consequent"] = {"inputs": ins2, "outputs": [out("O", ("Centroid", 2))], "blocks": [bad]}
     S_["weighted-output-read-later"] = {"inputs": ins2, "outputs": [out("O", ("WeightedAverage",), CONST, None), out("P", ("Centroid", 2))],
                                         "blocks": [blk(["if X is a and Y is a then O is a", "if X is b then O is b"]), blk(["if O is a or Y is b then P is b", "if O is b and X is a then P is a"])]}
+    # ONE weighted defuzzifier object installed in two output variables of different term families (what Engine.configure does)
+    S_["shared-weighted-defuzzifier"] = {"inputs": ins2, "outputs": [out("O", ("WeightedAverage",), MONO, None), out("P", ("WeightedAverage",), CONST, None)],
+                                         "blocks": [blk(["if X is a then O is a and P is b", "if Y is b or X is b then P is a and O is b"])], "share_defuzzifier": True}
+    S_["shared-weighted-defuzzifier-reversed"] = {"inputs": ins2, "outputs": [out("P", ("WeightedSum",), CONST, None), out("O", ("WeightedSum",), MONO, None)],
+                                                  "blocks": [blk(["if X is a then O is a and P is b", "if Y is b or X is b then P is a and O is b"])], "share_defuzzifier": True}
     S_["first-activation"] = {"inputs": ins2, "outputs": [out("O", ("LargestOfMaximum", 2))],
                               "blocks": [blk(["if X is a and Y is b then O is a", "if X is b or Y is a then O is b"], ("First", 1, 0.0))]}
     return S_
@@ -129,6 +134,8 @@ def components(spec):
 
 def with_presence(spec, present):
     sp = {"inputs": spec["inputs"], "outputs": [dict(o) for o in spec["outputs"]], "blocks": [dict(b) for b in spec["blocks"]]}
+    if spec.get("share_defuzzifier"):
+        sp["share_defuzzifier"] = True
     for (kind, i, c), p in present.items():
         if not p:
             (sp["blocks"] if kind == "block" else sp["outputs"])[i][c] = None
